@@ -187,6 +187,9 @@ IterBridge.vos IterBridge.vok IterBridge.required_vos: IterBridge.v Bytes.vos Se
 IterBridgeFacts.vo IterBridgeFacts.glob IterBridgeFacts.v.beautified IterBridgeFacts.required_vo: IterBridgeFacts.v Bytes.vo BytesFacts.vo Segment.vo SegmentFacts.vo Stack.vo StackFacts.vo Collection.vo CollectionFacts.vo Iterator.vo IteratorFacts.vo IterBridge.vo
 IterBridgeFacts.vio: IterBridgeFacts.v Bytes.vio BytesFacts.vio Segment.vio SegmentFacts.vio Stack.vio StackFacts.vio Collection.vio CollectionFacts.vio Iterator.vio IteratorFacts.vio IterBridge.vio
 IterBridgeFacts.vos IterBridgeFacts.vok IterBridgeFacts.required_vos: IterBridgeFacts.v Bytes.vos BytesFacts.vos Segment.vos SegmentFacts.vos Stack.vos StackFacts.vos Collection.vos CollectionFacts.vos Iterator.vos IteratorFacts.vos IterBridge.vos
+ReadPaths.vo ReadPaths.glob ReadPaths.v.beautified ReadPaths.required_vo: ReadPaths.v Collection.vo Theorems.vo SegmentFacts.vo Iterator.vo IterBridge.vo IterBridgeFacts.vo
+ReadPaths.vio: ReadPaths.v Collection.vio Theorems.vio SegmentFacts.vio Iterator.vio IterBridge.vio IterBridgeFacts.vio
+ReadPaths.vos ReadPaths.vok ReadPaths.required_vos: ReadPaths.v Collection.vos Theorems.vos SegmentFacts.vos Iterator.vos IterBridge.vos IterBridgeFacts.vos
 Crash.vo Crash.glob Crash.v.beautified Crash.required_vo: Crash.v 
 Crash.vio: Crash.v 
 Crash.vos Crash.vok Crash.required_vos: Crash.v 
